@@ -203,7 +203,7 @@ pub fn round(ctx: &Ctx, address: &str, tname: &str, nclients: usize, nbad: usize
 /// the other and LEFT OPEN; each must be answered while the earlier ones sit idle.  Returns
 /// Err(description) when the j-th connection is not answered within the watchdog, saying whether
 /// closing the idle ones released it.
-fn quiet_gap_pass(gap: Duration, burst: usize, tag: &str) -> Result<Result<usize, String>, String> {
+fn quiet_gap_pass(gap: Duration, burst: usize, close_order: usize, tag: &str) -> Result<Result<usize, String>, String> {
     let mut server = Server::start(standard_service(SvcCfg::default()), Transport::UnixPath, ServerCfg { initial: 1, max: 200, idle_timeout: 0, with_stop_flag: true })?;
     server.wait_ready()?;
     let echo = |c: &mut RawConn, tok: &str, wait: Duration| -> Result<bool, String> {
@@ -225,7 +225,18 @@ fn quiet_gap_pass(gap: Duration, burst: usize, tag: &str) -> Result<Result<usize
         }
         conns.push(c);
     }
-    drop(conns);
+    // the order in which the burst's connections end decides which worker waits for work first
+    // (0: as opened, 1: reverse, 2: rotated), so it is part of the history
+    match close_order {
+        0 => {}
+        1 => conns.reverse(),
+        _ => conns.rotate_left(burst / 2),
+    }
+    for mut c in conns {
+        c.shutdown_both();
+        drop(c);
+        std::thread::sleep(Duration::from_millis(3));
+    }
     std::thread::sleep(gap);
     let mut idle: Vec<RawConn> = Vec::new();
     let mut verdict = Ok(burst);
@@ -257,17 +268,17 @@ fn quiet_gap_pass(gap: Duration, burst: usize, tag: &str) -> Result<Result<usize
 /// Quiet periods are where timers in a pool (idle reaping, keep-alive) act; the random rounds
 /// never pause that long.  A shortfall is only a violation when it repeats on a second, fresh
 /// server; once is inconclusive.
-fn quiet_gap(ctx: &Ctx, gap: Duration, burst: usize, tag: &str) {
+fn quiet_gap(ctx: &Ctx, gap: Duration, burst: usize, close_order: usize, tag: &str) {
     let mut fails = Vec::new();
     for attempt in 0..2 {
-        match quiet_gap_pass(gap, burst, &format!("{}a{}", tag, attempt)) {
+        match quiet_gap_pass(gap, burst, close_order, &format!("{}a{}", tag, attempt)) {
             Err(e) => {
                 ctx.inconclusive(json!({"quiet_gap": e, "gap_s": gap.as_secs_f64()}));
                 return;
             }
             Ok(Ok(n)) => {
                 if attempt == 0 {
-                    ctx.case(Some(hash_of(&("quiet-gap", gap.as_millis() as u64, burst))));
+                    ctx.case(Some(hash_of(&("quiet-gap", gap.as_millis() as u64, burst, close_order))));
                     ctx.count("quiet_gap_histories", 1);
                     ctx.count("connections_served_beside_idle_ones_after_quiet_gap", n as u64);
                 } else {
@@ -278,7 +289,7 @@ fn quiet_gap(ctx: &Ctx, gap: Duration, burst: usize, tag: &str) {
             Ok(Err(m)) => fails.push(m),
         }
     }
-    ctx.violation("c13:idle-connections-block-another-after-quiet-period", json!({"engine": "c13-quiet-gap", "gap_ms": gap.as_millis() as u64, "burst": burst, "message": fails}));
+    ctx.violation("c13:idle-connections-block-another-after-quiet-period", json!({"engine": "c13-quiet-gap", "gap_ms": gap.as_millis() as u64, "burst": burst, "close_order": close_order, "message": fails}));
 }
 
 pub fn main(ctx: &Ctx) -> i32 {
@@ -286,7 +297,9 @@ pub fn main(ctx: &Ctx) -> i32 {
     std::thread::scope(|sc| {
         for (i, g) in gaps.iter().enumerate() {
             let g = *g;
-            sc.spawn(move || quiet_gap(ctx, Duration::from_millis(g), 4, &format!("q{}", i)));
+            for order in 0..3usize {
+                sc.spawn(move || quiet_gap(ctx, Duration::from_millis(g), 4, order, &format!("q{}o{}", i, order)));
+            }
         }
         main_rounds(ctx);
     });
@@ -294,7 +307,7 @@ pub fn main(ctx: &Ctx) -> i32 {
 }
 
 fn main_rounds(ctx: &Ctx) {
-    ctx.set_rule("2-64 simultaneous clients on unix and TCP against one listen() server (max_worker_threads 200), each pipelining a random token-tagged sequence at a random depth with random segmentation/delays, beside 0-8 misbehaving peers (idle, half a message, close mid-message, garbage, one byte every 2 ms) that stay open until every well-behaved client is done; plus quiet-period histories (burst of 4 simultaneous connections, all closed, 1.1/2.6/5.5 s of silence (thorough: up to 61 s), then 4 connections opened one by one and left open, each of which must be answered beside the idle ones); distinct = (client count, transport, misbehaviour mix, observed completion order); non-trivial = >=2 clients overlapped in logical time");
+    ctx.set_rule("2-64 simultaneous clients on unix and TCP against one listen() server (max_worker_threads 200), each pipelining a random token-tagged sequence at a random depth with random segmentation/delays, beside 0-8 misbehaving peers (idle, half a message, close mid-message, garbage, one byte every 2 ms) that stay open until every well-behaved client is done; plus quiet-period histories (burst of 4 simultaneous connections, closed in opening/reverse/rotated order, 1.1/2.6/5.5 s of silence (thorough: up to 61 s), then 4 connections opened one by one and left open, each of which must be answered beside the idle ones); distinct = (client count, transport, misbehaviour mix, observed completion order); non-trivial = >=2 clients overlapped in logical time");
     ctx.assume("tokens are globally unique (round, client, index), so a foreign byte is recognisable; OS schedules are sampled, not controlled");
     let rounds = ctx.tier.pick(120usize, 6000usize);
     for (ti, &tr) in [Transport::UnixPath, Transport::Tcp].iter().enumerate() {
@@ -331,7 +344,7 @@ fn main_rounds(ctx: &Ctx) {
 pub fn replay(ctx: &Ctx, w: &Value) {
     if w.get("engine").and_then(|v| v.as_str()) == Some("c13-quiet-gap") {
         let g = w.get("gap_ms").and_then(|v| v.as_u64()).unwrap_or(2600);
-        quiet_gap(ctx, Duration::from_millis(g), w.get("burst").and_then(|v| v.as_u64()).unwrap_or(4) as usize, "rp");
+        quiet_gap(ctx, Duration::from_millis(g), w.get("burst").and_then(|v| v.as_u64()).unwrap_or(4) as usize, w.get("close_order").and_then(|v| v.as_u64()).unwrap_or(1) as usize, "rp");
         return;
     }
     let mut server = Server::start(standard_service(SvcCfg { up: UpMode::Line, ..Default::default() }), Transport::UnixPath, ServerCfg { initial: 1, max: 200, idle_timeout: 0, with_stop_flag: true }).expect("server");
